@@ -674,4 +674,17 @@ def gen_spec(rng, fmt=None, maxn=5, maxt=4, small=False):
     if spec['sdate'] // 1000 == 2069 and spec['sdate'] % 1000 + (
             spec['nt'] * spec['dhour'] + spec['shour']) // 24 > 364:
         spec['sdate'] = 2069001
+    if fmt in ('uamiv', 'lateral_boundary'):
+        # tagged species beside their untagged base (O3 and O3_A, PM_10 and
+        # PM_10_X): names with the separator the boundary keys also use
+        r2 = np.random.default_rng([spec['seed'], 77])
+        if r2.random() < 0.15:
+            base = spec['names'][0][:4]
+            tag = base + '_' + str(r2.choice(['A', '10', '1_X']))
+            if len(spec['names']) > 1:
+                spec['names'][-1] = tag
+            else:
+                spec['names'].append(tag)
+            if r2.random() < 0.4 and len(spec['names']) < 4:
+                spec['names'].append(tag + '_Z')
     return spec
